@@ -71,6 +71,17 @@ def make_column(name, ty, opts):
     return {"name": name, "type": ty, "opts": opts}
 
 
+DEFERRABLE = [None, None, None, None, "DEFERRED", "IMMEDIATE", "NOT"]      # the forms the pinned grammar reads, written last in a REFERENCES clause
+
+
+def deferrable_tokens(d):
+    if d is None:
+        return []
+    if d == "NOT":
+        return K("NOT DEFERRABLE")
+    return K("DEFERRABLE INITIALLY") + T(d)
+
+
 def opt_tokens(o):
     k = o["k"]
     if k == "notnull":
@@ -90,6 +101,7 @@ def opt_tokens(o):
             toks += K("ON DELETE") + T(o["on_delete"])
         if o.get("on_update"):
             toks += K("ON UPDATE") + T(o["on_update"])
+        toks += deferrable_tokens(o.get("deferrable"))
         return toks
     if k == "check":
         pre = (K("CONSTRAINT") + I(o["cname"])) if o.get("cname") else []
@@ -112,7 +124,7 @@ def column_tokens(c):
 
 def ref_expect(o):
     return {"table": o["table"], "schema": o.get("schema"), "on_delete": o.get("on_delete"),
-            "on_update": o.get("on_update"), "deferrable_initially": None, "column": o["column"]}
+            "on_update": o.get("on_update"), "deferrable_initially": o.get("deferrable"), "column": o["column"]}
 
 
 def column_expect(c):
@@ -161,6 +173,7 @@ def clause_tokens(cl):
             toks += K("ON DELETE") + T(cl["on_delete"])
         if cl.get("on_update"):
             toks += K("ON UPDATE") + T(cl["on_update"])
+        toks += deferrable_tokens(cl.get("deferrable"))
         return toks
     raise ValueError(k)
 
@@ -222,7 +235,7 @@ def table_expect(t):
                 cons.setdefault("checks", []).append({"constraint_name": cl["name"], "statement": st})
         elif k == "fk":
             base = {"table": cl["ref_table"], "schema": cl.get("ref_schema"), "on_delete": cl.get("on_delete"),
-                    "on_update": cl.get("on_update"), "deferrable_initially": None}
+                    "on_update": cl.get("on_update"), "deferrable_initially": cl.get("deferrable")}
             if cl.get("name"):
                 r = dict(base)
                 r["columns"] = list(cl["ref_cols"])
@@ -313,7 +326,7 @@ def compare_table(ent, exp, fields=("type", "size", "nullable", "default", "uniq
 # --------------------------------------------------------------------------- random generation
 def gen_ref_opt(rng):
     return {"k": "ref", "cname": rng.choice([None, None, None, "fk_inline", "FK_In2"]), "schema": rng.choice([None, None, "s1", "Ref_S"]), "table": rng.choice(["other", "Parent", "p2"]),
-            "column": rng.choice(["id", "k", "Code"]), "on_delete": rng.choice(ACTIONS), "on_update": rng.choice(ACTIONS[:3])}
+            "column": rng.choice(["id", "k", "Code"]), "on_delete": rng.choice(ACTIONS), "on_update": rng.choice(ACTIONS[:3]), "deferrable": rng.choice(DEFERRABLE)}
 
 
 def gen_opt(rng, kind, colname):
@@ -411,7 +424,7 @@ def add_clauses(rng, t, has_pk, max_clauses=5, position="after_first"):
             made.append({"kind": "fk", "cols": cs, "name": ("fk_%d" % cn) if kd == "cfk" else None,
                          "ref_schema": rng.choice([None, "s"]), "ref_table": rng.choice(["p", "Parent2"]),
                          "ref_cols": ["k%d" % i for i in range(len(cs))],
-                         "on_delete": rng.choice(ACTIONS[:3]), "on_update": rng.choice(ACTIONS[:3])})
+                         "on_delete": rng.choice(ACTIONS[:3]), "on_update": rng.choice(ACTIONS[:3]), "deferrable": rng.choice(DEFERRABLE)})
     # place clauses: anywhere after the first column
     items = list(t["items"])
     for cl in made:
